@@ -4,6 +4,7 @@ open Spine.UC Spine.UCS
 
     `add E A N V AV SC SUB` | `avail E A N AV` | `rm E A N` | `rmall E`   an EntityLocal helper (DataCopy, helper, SetData)
     `m <op>`                                                            the helper of package model on a scratch DataCopy
+    `o K <op>`                                                          the helper of package model on retained value K (oldest = 0)
     `snap`                                                              a value is handed out and retained
     `has E A N`                                                         HasUseCaseSupport
     `cfg a b c`                                                         member of the family (addInPlace availInPlace removeAllInPlace)
@@ -43,6 +44,12 @@ def answer (d : D) (ws : List String) : D × String :=
   | ["has", e, a, n] => match nums [a, n] with
     | some [a, n] => (d, if has (d.s.h.view d.s.store) (parseEnt e) a n then "true" else "false")
     | _ => (d, "bad-op")
+  | "o" :: k :: rest => match k.toNat?, parseOp rest with
+    | some k, some o =>
+      -- k counts from the oldest retained value; the model's list is newest first
+      let n := d.s.handles.length
+      if k < n then let s' := step d.c d.s (.own (n - 1 - k) o); ({ d with s := s' }, showAll s') else (d, "bad-op")
+    | _, _ => (d, "bad-op")
   | "m" :: rest => match parseOp rest with
     | some o => let s' := step d.c d.s (.scratch o); ({ d with s := s' }, showAll s')
     | none => (d, "bad-op")
